@@ -227,6 +227,17 @@ func runRet(ci interface{}, s *vkit.Stats) error {
 	if pv != nil {
 		return fmt.Errorf("%s: Return panicked: %v", desc(), pv)
 	}
+	// the list handed to Return(vals...) stays the caller's: half of the cases reuse it for something else before the first
+	// call (a table-driven test refilling one row); the stub must keep the values it was given
+	reused := c.Codes[0]%2 == 0
+	shown := desc()
+	if reused {
+		for i := range vals {
+			vals[i] = struct{ Reused int }{i}
+		}
+		desc = func() string { return shown + " (the caller refilled its result list after Return)" }
+		s.Class("caller-reused-its-result-list-after-Return")
+	}
 	args := make([]reflect.Value, fn.Type.NumIn())
 	for i := range args {
 		args[i] = vkit.Value(fn.Type.In(i), uint64(i)+3)
